@@ -124,3 +124,13 @@ def Wide(x: int):
     c = workflow.add(Node(x=x, tag=3), name="c")
     d = workflow.add(Node(x=x, tag=4), name="d")
     return a.out, b.out, c.out, d.out
+
+
+@workflow.define(outputs=["tot", "pairs"])
+def SplitCombine(xs: list[int], ys: list[int]):
+    """two independent splits feeding an outer-product node, then a combine over one axis"""
+    a = workflow.add(Node(tag=1).split(x=xs), name="a")
+    b = workflow.add(Node(tag=2).split(x=ys), name="b")
+    p = workflow.add(Pair(x=a.out, y=b.out, tag=3).combine("a.x"), name="p")
+    t = workflow.add(Total(xs=p.out, tag=4), name="t")
+    return t.out, p.out
